@@ -70,7 +70,8 @@ def bounds(tier):
             "debug": ["no", "= minimal whitespace", "spaces around form and ="],
             "specs": [None if s is None else "".join(p if isinstance(p, str) else p[0] for p in s) for s in F.SPECS],
             "bindings": [{k: repr(v) for k, v in e.items()} for e in F.ENVS],
-            "malformed": {"one malformed part among <= n parts, the others from pool 'small'": b["mal_n"],
+            "malformed": {"max_parts": b["mal_n"], "rule": "exactly one malformed part at every position, the other parts from pool 'small'",
+                          "other_parts_pool_size": len(_pool("small")),
                           "malformed_parts": [F.part_hy(p) for p in F.malformed_parts()]}}
 
 
@@ -118,7 +119,7 @@ def eval_hy(text):
     try:
         forms = list(hy.read_many(text))
     except HySyntaxError as e:
-        return ("syntax", type(e).__name__, str(getattr(e, "msg", e))[:80])
+        return ("syntax", type(e).__name__, str(getattr(e, "msg", e))[:160])
     except BaseException as e:
         return ("internal", f"read raised {type(e).__name__}: {e}"[:160])
     if len(forms) != 1 or type(forms[0]) is not M.FString:
@@ -129,13 +130,10 @@ def eval_hy(text):
         c1 = compile(tree, "<c24>", "exec")
         c2 = compile(expr, "<c24>", "eval")
     except HySyntaxError as e:
-        return ("syntax", type(e).__name__, str(getattr(e, "msg", e))[:80])
+        return ("syntax", type(e).__name__, str(getattr(e, "msg", e))[:160])
     except BaseException as e:
         return ("internal", f"compile raised {type(e).__name__}: {e}"[:160])
     return ("results", [_run(c1, c2, env) for env in F.ENVS])
-
-
-_pycode = {}
 
 
 def eval_py(src):
@@ -183,7 +181,7 @@ def judge_valid(parts, mode):
         return (f"{mode}:valid->syntax-error",
                 [("valid-fstring-rejected", case,
                   f"{hy_text!r} raises {hyr[1]}: {hyr[2]}; the equivalent Python {py_text!r} evaluates to {py[1][0]!r}",
-                  f"valid-fstring-rejected:{hyr[1]}:{hyr[2][:40]}", dict(fields, exc=hyr[1], msg=hyr[2][:60]))], hy_text)
+                  f"valid-fstring-rejected:{hyr[1]}:{hyr[2][:40]}", dict(fields, exc=hyr[1], msg=hyr[2][:120]))], hy_text)
     dis = []
     kinds = []
     for env, h, p in zip(F.ENVS, hyr[1], py[1]):
@@ -222,7 +220,8 @@ def _account(acc, cls, dis, parts, nontrivial):
     acc.states += 1
     acc.transitions += len(parts) + 1
     acc.traces += 1
-    acc.evaluations += 3
+    # one read(+compile) of the Hy text, plus one evaluation per binding when it compiled
+    acc.evaluations += 1 + (0 if ("->" in cls and not cls.endswith("->evaluates")) or cls.endswith(":internal") else 3)
     if nontrivial:
         acc.nontrivial += 1
     acc.outcome(cls)
